@@ -318,7 +318,7 @@ func ComputeReleases(p *Prog) *Releases {
 	r := &Releases{p: p, sum: map[*ssa.Function][]relSummary{}}
 	for iter := 0; iter < 4; iter++ {
 		changed := false
-		for _, fn := range p.Fns {
+		for _, fn := range p.AllFns {
 			if fn.Parent() != nil {
 				continue
 			}
@@ -640,7 +640,7 @@ func ruleUseAfterRelease(c *Check, a *Analysis, rule string, scope uarScope) {
 	c.Rule(rule, "no use of a pooled Context/Call/upgrade/event (or of a Context field that aliases its read buffer) is reachable from the point where it was returned to its pool; no double release; an object handed to a scheduled closure is not touched again by the scheduling function", 6)
 	rel := a.Releases()
 	sc := siteCounter{}
-	for _, fn := range p.Fns {
+	for _, fn := range p.AllFns {
 		if !scope(fn) {
 			continue
 		}
